@@ -11,6 +11,7 @@ from ..storejudge import decode_store, expected_post_codes, STORE_OPS
 from . import c07
 
 ID = 'C19'
+TECHNIQUE = 'runtime monitoring: + - * events at the 53 / 64-bit transition and huge-integer stores judged against exact ints; integer-code-type monitor (U4); sys.monitoring taps on the raw kernels for diagnostics'
 TITLE = 'no silent wrap at 53/64 bits'
 RULE = ('arithmetic events + - * with optimal sizing whose documented result word is 54..256 bits (operand words 2..70, any signedness mix): result values must '
         'equal the exact integers/Fractions computed from the PRE operand codes, format = growth rule, overflow/underflow clear, codes Python/NumPy integers '
